@@ -92,7 +92,7 @@ def build_lib(extra_flags=()):
         for e in os.listdir(BUILD):
             if e.startswith("lib-") and e != "lib-" + key:
                 p = os.path.join(BUILD, e)
-                if os.path.getmtime(p) < os.path.getmtime(d) - 6 * 3600:
+                if os.path.getmtime(p) < os.path.getmtime(d) - 900:
                     subprocess.run(["rm", "-rf", p])
     return d
 
@@ -102,7 +102,7 @@ def build_harness(name, kind, libdir, extra_wraps=(), lib_objs=None, defs=()):
     repo = repo_dir()
     src = os.path.join(HARNESS, name + ".c")
     hdrs = [os.path.join(HARNESS, f) for f in os.listdir(HARNESS) if f.endswith(".h")]
-    key = _hash_files([src] + hdrs, kind + " ".join(extra_wraps) + " ".join(defs))
+    key = _hash_files([src] + hdrs, "v2" + kind + " ".join(extra_wraps) + " ".join(defs))
     exe = os.path.join(libdir, "%s-%s" % (name, key))
     if os.path.exists(exe):
         return exe
@@ -116,7 +116,7 @@ def build_harness(name, kind, libdir, extra_wraps=(), lib_objs=None, defs=()):
     else:
         objs = [os.path.join(libdir, s[:-2] + ".o") for s in LIB_SRCS] + [os.path.join(libdir, "fmc_wrap.o")]
         wraps = WRAPS + list(extra_wraps)
-        link = ["gcc", "-no-pie", "-rdynamic", "-o", exe + ".tmp", obj] + objs + eng + ["-L", libdir, "-lfmcenv", "-Wl,-rpath," + libdir]
+        link = ["gcc", "-no-pie", "-rdynamic", "-o", exe + ".tmp", obj] + objs + eng + ["-L", libdir, "-Wl,--no-as-needed", "-lfmcenv", "-Wl,--as-needed", "-Wl,-rpath," + libdir]
     link += ["-Wl,--wrap=" + w for w in wraps] + ["-lpthread", "-ldl", "-lm"]
     _run(link)
     os.rename(exe + ".tmp", exe)
